@@ -145,4 +145,91 @@ theorem parsePosting_toks (p : Posting) (hp : p.wf = true) (ln o : Nat) (R : Lis
     rw [show 1 + (4 + p.acct.length + 2) = 5 + p.acct.length + 2 by omega,
       show o + (4 + p.acct.length + 2) = o + 4 + p.acct.length + 2 by omega]
 
+/-! ### the postings loop, the transaction, the journal loop -/
+
+theorem advance_stOf (toks : List Token) (c : Token) (e : List ParseError) (y : Int) :
+    advance (E cls) ⟨toks, c, e, y⟩ = stOf toks e y := by
+  cases toks <;> rfl
+
+theorem fuelOf_stOf (L : List Token) (errs : List ParseError) (dy : Int) :
+    L.length ≤ fuelOf (E cls) (stOf L errs dy) := by
+  cases L <;> simp [stOf, fuelOf, listEnv, listSrc]
+
+theorem postingsToks_length (ps : List Posting) : ∀ ln o, ps.length ≤ (postingsToks ps ln o).length := by
+  induction ps with
+  | nil => intro _ _; simp [postingsToks]
+  | cons p ps ih =>
+    intro ln o
+    have := ih (ln + 1) (o + p.print.length + 1)
+    simp only [postingsToks, List.length_append, List.length_cons, Posting.toks]
+    omega
+
+/-- **The postings loop**, for any number of postings, up to the first token that is not an
+    Indent. -/
+theorem postingsF_toks (ps : List Posting) (hps : ∀ p ∈ ps, p.wf = true) :
+    ∀ (ln o n : Nat) (x : Token) (R : List Token) (errs : List ParseError) (dy : Int),
+      ps.length ≤ n → x.ty ≠ .indent →
+      postingsF (E cls) n (stOf (postingsToks ps ln o ++ x :: R) errs dy) =
+        (expectedPostings ps ln o, ⟨R, x, errs, dy⟩) := by
+  induction ps with
+  | nil =>
+    intro ln o n x R errs dy _ hx
+    simp only [postingsToks, List.nil_append, stOf_cons, expectedPostings]
+    cases n with
+    | zero => rfl
+    | succ n => simp [postingsF, hx]
+  | cons p ps ih =>
+    intro ln o n x R errs dy hn hx
+    obtain ⟨n, rfl⟩ : ∃ m, n = m + 1 := ⟨n - 1, by simp at hn; omega⟩
+    have e : postingsToks (p :: ps) ln o ++ x :: R =
+        p.toks ln o ++ (postingsToks ps (ln + 1) (o + p.print.length + 1) ++ x :: R) := by
+      simp [postingsToks]
+    have hind : (stOf (p.toks ln o ++ (postingsToks ps (ln + 1) (o + p.print.length + 1) ++ x :: R)) errs dy).current.ty
+        = .indent := by simp [Posting.toks, tokP]
+    rw [e]
+    unfold postingsF
+    simp only [hind, ne_eq, not_true_eq_false, if_false, parsePosting_toks cls p (hps p (by simp)), nlP_ty, if_true,
+      advance_stOf, ih (fun q hq => hps q (by simp [hq])) _ _ n x R errs dy (by simpa using hn) hx,
+      expectedPostings]
+
+theorem date_parse (d : Date) (hd : d.wf = true) :
+    splitByte d.print (firstSep d.print) = [d.y, d.m, d.d] ∧ atoi d.y = some (digitsNat d.y : Int) ∧
+    atoi d.m = some (digitsNat d.m : Int) ∧ atoi d.d = some (digitsNat d.d : Int) := by
+  simp only [Date.wf, Bool.and_eq_true, beq_iff_eq, List.all_eq_true] at hd
+  obtain ⟨⟨⟨⟨⟨hy, hyd⟩, hm⟩, hmd⟩, hdl⟩, hdd⟩ := hd
+  have ne : ∀ s : Bytes, 0 < s.length → s ≠ [] := fun s h h' => by simp [h'] at h
+  refine ⟨?_, atoi_digits _ hyd (ne _ (by omega)) (by omega), atoi_digits _ hmd (ne _ (by omega)) (by omega),
+    atoi_digits _ hdd (ne _ (by omega)) (by omega)⟩
+  have : firstSep d.print = 0x2D := by
+    have := firstSepDate d.y (d.m ++ 0x2D :: d.d) hyd
+    simpa [Date.print] using this
+  rw [this]
+  exact splitDate d.y d.m d.d hyd hmd hdd
+
+/-- **`parseTransaction` on the tokens of a transaction**, any number of postings; it stops on
+    the first token behind the last posting line. -/
+theorem parseTransaction_toks (t : Tx) (ht : t.wf = true) (ln o : Nat) (x : Token) (R : List Token)
+    (errs : List ParseError) (dy : Int) (hx : x.ty ≠ .indent)
+    (hpos : x.pos = ⟨ln + 1 + t.postings.length, 1, o + t.print.length⟩) :
+    parseTransaction (E cls) (stOf (t.toks ln o ++ x :: R) errs dy) =
+      (some (t.expected ln o), ⟨R, x, errs, dy⟩) := by
+  simp only [Tx.wf, Bool.and_eq_true, Bool.not_eq_true', List.all_eq_true] at ht
+  obtain ⟨⟨⟨hd, _⟩, _⟩, hps⟩ := ht
+  obtain ⟨hs, hy, hm, hdd⟩ := date_parse t.date hd
+  have e : t.toks ln o ++ x :: R = tokP .date t.date.print ln o 0 ::
+      tokP .text t.descr ln o (t.date.print.length + 1) :: nlP ln o t.header.length ::
+      (postingsToks t.postings (ln + 1) (o + t.header.length + 1) ++ x :: R) := by
+    simp [Tx.toks, Tx.headerToks]
+  rw [e]
+  unfold parseTransaction parseDate
+  simp only [stOf_cons, tokP, ne_eq, not_true_eq_false, if_false, advance_cons, hs, hy, hm, hdd]
+  unfold txHeader txDate2 txStatus txCode txComment txDescription
+  simp only [reduceCtorEq, if_false, if_true, advance_cons, nlP_ty]
+  simp only [advance_stOf]
+  rw [postingsF_toks cls t.postings hps _ _ _ x R errs dy
+    (Nat.le_trans (Nat.le_trans (postingsToks_length t.postings (ln + 1) (o + t.header.length + 1)) (by simp))
+      (fuelOf_stOf cls _ _ _)) hx]
+  simp only [toRange, hpos]
+  simp [Tx.expected]
+
 end HL.GCore
